@@ -110,6 +110,66 @@ def h_sigset(ctx, nv, signers, wmode='sym', twin=None, addr=False, spell=None):
 h_sigset.theory = 'int'
 
 
+def h_history(ctx, nv, first, second, same_block=True):
+    """two calls in one process: the verdict on the second signature set is a function of that call's arguments alone.
+    The first call may verify genuine signatures of the same validators over the same (or another) block; the second
+    set carries other signature bytes whose validity is free - a verdict remembered per (block, validator) instead of per
+    signature would accept it without verifying."""
+    weights = [ctx.zint(f'w{i}', 0, (1 << 64) - 1) if ctx.symbolic else ctx.zint(f'w{i}') for i in range(nv)]
+    nodes = [ValidatorDescr('validator', SigPubKey(KEYS[i]), weights[i]) for i in range(nv)]
+    root, fileh = ctx.bytes_('root_hash', 32), ctx.bytes_('file_hash', 32)
+    blk1 = BlockIdExt(-1, None, 1234, root, fileh)
+    blk2 = BlockIdExt(-1, None, 1234, root, fileh) if same_block else BlockIdExt(-1, None, 1235, ctx.bytes_('root2', 32), fileh)
+    valid = {}
+
+    def verify_stub(public_key, signed_message, signature):
+        key = (bytes(public_key), bytes(signature))
+        if key not in valid:
+            valid[key] = ctx.boolean(f'valid_other_{len(valid)}')
+        return valid[key]
+
+    def sigset(signers, tag):
+        out = []
+        for s in signers:
+            pk = UNKNOWN if s == 'u' else KEYS[s]
+            sig = hashlib.sha512(tag + pk).digest()
+            if (pk, sig) not in valid:
+                valid[(pk, sig)] = ctx.boolean(f'valid_{tag.decode()}_{s}')
+            out.append(dict(node_id_short=node_id(pk).hex(), signature=sig))
+        return out
+
+    def oracle(signers, tag):
+        known = all(s != 'u' for s in signers)
+        distinct = len(set(signers)) == len(signers)
+        if not (known and distinct):
+            return False
+        all_valid = And(*[valid[(KEYS[s], hashlib.sha512(tag + KEYS[s]).digest())] for s in signers]) if signers else True
+        total = 0
+        for w in weights:
+            total = total + w
+        signed = 0
+        for s in signers:
+            signed = signed + weights[s]
+        return And(all_valid, signed * 3 > total * 2)
+    saved = CP.verify_sign
+    CP.verify_sign = verify_stub
+    try:
+        for n, (signers, tag, blk) in enumerate(((first, b'one', blk1), (second, b'two', blk2), (first, b'one', blk1))):
+            sigs = sigset(signers, tag)
+            try:
+                CP.check_block_signatures(nodes, sigs, blk)
+                accepted = True
+            except CP.ProofError:
+                accepted = False
+            ctx.require(Iff(accepted, oracle(signers, tag)), 'call sequence: every verdict is that of the call\'s own arguments')
+    finally:
+        CP.verify_sign = saved
+
+
+h_history.theory = 'int'
+h_history.symkeys = True        # block ids with symbolic hashes may be used as dictionary keys by the code under test
+
+
 def h_node_id(ctx):
     pk = ctx.bytes_('pk', 32)
     ctx.require(CP.calculate_node_id_short(pk) == sha256(b'\xc6\xb4\x13H' + pk), 'node id = sha256(magic + public key)')
@@ -156,6 +216,18 @@ def instances(tier, seed):
         yield 'h_sigset', dict(nv=3, signers=signers, addr=True)
 
 
+    for nv in (1, 2, 3):
+        lists = [list(x) for n in range(0, 3) for x in itertools.product(list(range(nv)), repeat=n) if len(set(x)) == n]
+        for a in lists:
+            for b in lists:
+                if not a and not b:
+                    continue
+                if tier == 'quick' and nv == 3 and zlib.crc32(repr((a, b)).encode()) % 3 != seed % 3:
+                    continue
+                yield 'h_history', dict(nv=nv, first=a, second=b)
+        yield 'h_history', dict(nv=nv, first=[0], second=[0], same_block=False)
+
+
 def twins(tier, seed):
     yield 'h_sigset', dict(nv=3, signers=[0, 1], twin='ge')
 
@@ -167,6 +239,8 @@ BOUNDS = {
     'spelling': 'signer lists of length 1..3 (thorough ..4) over 1..3 validators with the node ids written in lower case, upper case, with blanks '
                 'and half upper case - every list with a repeated signer in two spelling patterns',
 }
+BOUNDS['call sequences'] = ('three calls in one process (set A, set B with other signature bytes of free validity, set A again) over the same block '
+                            'or another one; 1..3 validators, sets of 0..2 distinct signers')
 OUTSIDE = ['Ed25519 itself (libsodium): only its use is checked; its contract is validated on fixed vectors', 'more than 4 validators']
 STUBS = ['verify_sign: uninterpreted predicate valid(pk, msg, sig) - functional only', 'hashlib.sha256 on symbolic input: injective uninterpreted function']
 ASSUMPTIONS = ['a repeated entry of the same signer carries the same signature bytes']
